@@ -187,9 +187,11 @@ def judge(case, obs, pid=PID):
             # sender of level L sees its own multicast is not specified and not judged)
             v.append(("%s/wrong-level:%s:got-L%d" % (pid, shape, lvl), "node %o (level %d) queued a multicast for level %d" % (key, lvl, L)))
         if key in direct and want not in q:
-            if obs["overflow"][key] == 0 and not (nfrag > 1 and obs["ncoll"] > 0):
+            # excused: RX FIFO overflow, collisions, and - for fragment bursts - a receiver that is
+            # itself a relay (half duplex: it cannot hear fragment k+1 while re-broadcasting k)
+            if obs["overflow"][key] == 0 and not (nfrag > 1 and (obs["ncoll"] > 0 or key in relays)):
                 v.append(("%s/missed:%s" % (pid, shape), "node %o of level %d did not receive the multicast (len %d)" % (key, L, len(msg))))
-        if key in relayed and key not in direct and want not in q and clean:
+        if key in relayed and key not in direct and want not in q and clean and (nfrag == 1 or want in obs["queues"][relay_node]):
             v.append(("%s/relay-missed:%s" % (pid, shape), "node %o of level %d did not receive the multicast relayed by %o" % (key, lvl, relay_node)))
     if obs["acks"]:
         v.append(("%s/acknowledged:%s" % (pid, shape), "hardware ACK packet(s) on the air: %r" % obs["acks"][:3]))
@@ -219,7 +221,7 @@ def judge(case, obs, pid=PID):
             continue
         if any(a != level_addr(lvl + 1) for a, _, _ in txs):
             v.append(("%s/relay-wrong-address:%s" % (pid, shape), "relay %o of level %d sent to %s, next level address is %s" % (key, lvl, txs[0][0].hex(), level_addr(lvl + 1).hex())))
-        if exact and clean and key == relay_node:
+        if exact and clean and key == relay_node and (nfrag == 1 or want in obs["queues"][key]):
             if len(txs) != nfrag:
                 v.append(("%s/relay-count:%s" % (pid, shape), "relay %o re-broadcast %d packet(s) for %d received frame(s)" % (key, len(txs), nfrag)))
             if want not in obs["queues"][key]:
